@@ -165,6 +165,8 @@ def run(ctx):
     if quick:
         must = [["e", "e2"], ["p3", "e"]]
         pairs = must + [p for i, p in enumerate(pairs) if (i + ctx.seed) % 3 == 0 and p not in must]
+    if not quick:
+        pairs += [list(t) for t in itertools.permutations(["p", "e", "s", "e2"], 3)]
     jobs = [(inp, ex) for inp in INPUTS for ex in singles + pairs]
     ctx.cov["bounds"] = {"inputs": INPUTS, "extras": EXTRAS, "cases": len(jobs)}
     ctx.sweep(run_case, jobs, space="inputs x extra-argument lists", selftest=1, chunk=1)
